@@ -1034,7 +1034,15 @@ def oracle_c06(case, obs):
         # structural signature: which (scheme class <- object class, value kind) pairs were perturbed
         pairs = []
         cols = SP.layout(case["annot"])["columns"]
-        for i in case.get("hit", []):
+        hits = list(case.get("hit", []))
+        # the reader names the column it rejects: of several perturbed slots only that one is the cause
+        import re as _re
+        m = _re.search(r"name '([^']*)'", str(ex.get("reread_msg", "")))
+        if m:
+            named = [i for i in hits if i < len(case["slots"]) and case["slots"][i] is not None and case["slots"][i].get("key") == m.group(1)]
+            if named:
+                hits = named
+        for i in hits:
             s = case["slots"][i] if i < len(case["slots"]) else None
             if s is not None and i < len(cols):
                 pairs.append("%s<-%s:%s" % (_name(_spec_of_descr(cols[i][1])), _name(s["cls"]), s["value"][0]))
